@@ -7,11 +7,60 @@ def hook_commits():
     out = subprocess.run(["git", "-C", "/repo", "log", "--format=%H %s"], stdout=subprocess.PIPE, text=True).stdout
     return [l.split()[0] for l in out.splitlines() if " verif hook" in l]
 
+COMMON_NOTE = "Trusted: the harness payload type, ledger and rule checker; the installed nightly toolchain; held = held on the executions counted in the evidence file, bounds as listed there."
+
 CHECKS = {
- "C01": dict(level="exploration", technique="runtime monitor: reachability oracle on destructor events + canary dereference sweep, exhaustive small shapes and seeded random histories (native + MonAlloc, ASan, Miri)",
-   text="Every destructor start is checked online against an independent handle/adoption ledger (the destroyed object must be unreachable from program-held handles), and after every operation every reachable object is dereferenced through every handle. Exhaustive over all 2-object shapes/drop orders, sampled 3-object shapes, plus seeded random histories; held = held on the executions counted in the evidence file.",
-   note="Trusted: the ledger and payload type of the harness; bounds: <=7 objects, multiplicity <=2 in enumerations, histories <=~120 ops.", ref="6 C01"),
+ "C01": dict(level="exploration", ref="6 C01",
+   technique="runtime monitor: reachability oracle on destructor events + canary dereference sweep over exhaustive small shapes and seeded random histories (native+MonAlloc, AddressSanitizer, Miri)",
+   text="Every destructor start is checked online against an independent handle/adoption ledger (the destroyed object must be unreachable from program-held handles) and after every operation every reachable object is dereferenced through every handle. Exhaustive over 2-object shapes x drop orders x Weak placements, sampled 3-object shapes, structured families, seeded random histories; ASan and Miri replays turn a premature free into a report."),
+ "C02": dict(level="exploration", ref="6 C02",
+   technique="runtime monitor + sanitizers: exactly-once destructor oracle, checking/quarantining allocator, moved-out-field poison hook, AddressSanitizer, Miri",
+   text="Exactly-once oracle on destructor starts, allocator oracle for double/invalid free and write-after-free (quarantine), poison of moved-out fields (H2) so stale table reads panic deterministically, plus AddressSanitizer and Miri on the same histories; process deaths are attributed to the history in flight and confirmed in isolation."),
+ "C03": dict(level="exploration", ref="6 C03",
+   technique="runtime monitor: trace specification (required-set lower bound at every top-level and nested handle drop) checked on destructor event order",
+   text="At every handle drop the ledger computes the set the property requires to be destroyed (zero count, or forward closure over recorded adoptions with every handle explained) and demands End events for all of it before that drop returns; fully recorded shapes enumerated to 3 objects and sampled at 4, structured families with every choice of last outside handle."),
+ "C04": dict(level="exploration", ref="6 C04",
+   technique="runtime monitor: origin-tagging counting allocator (exact conservation per history) + LeakSanitizer and Miri leak checker on leak-free-predicted batches",
+   text="MonAlloc attributes every block to library or harness; per object the allocation must be live exactly while the object is alive or Weak handles remain, and after a teardown phase in which everything dies library-origin live blocks/bytes must be zero; all three teardown paths must have been observed. LSan and Miri's leak checker are independent second opinions."),
+ "C05": dict(level="exploration", ref="6 C05",
+   technique="runtime monitor: Weak observation oracle after every step and from inside payload destructors, against the ledger",
+   text="After every operation every Weak handle (program-held or stored in live values) must report the ledger's counts (0/0 after destruction), every upgrade result is checked (same allocation iff alive) and every dying value probes all Weak handles it owns from inside its destructor, on all teardown paths; ASan/Miri watch Weak operations after collection."),
+ "C06": dict(level="exploration", ref="6 C06",
+   technique="runtime monitor: count/identity oracle (strong_count, weak_count, ptr_eq, as_ptr) against the handle ledger after every step",
+   text="All four count functions, as_ptr and pairwise ptr_eq are compared with the ledger for every live object after every operation, including unreachable-but-uncollected objects read through stored handles by reference, across adoptions and partial collections."),
+ "C07": dict(level="translation_validation", ref="6 C07",
+   technique="differential execution: same generated programs on cactusref::Rc and std::rc::Rc, transcript comparison incl. destructor order",
+   text="The same interpreter source is instantiated on cactusref and on std::rc; transcripts (every call result, counts, pointer-equality relations, formatting/hash/comparison, interleaved destructor log with in-destructor probes) of seeded adoption-free programs must be identical."),
+ "C08": dict(level="exploration", ref="6 C08",
+   technique="runtime monitor: link-table snapshots (hook H1) compared with the adoption ledger after every step and at every destructor start",
+   text="Every live object's table is snapshotted through H1 and compared with the ledger (forward/backward multiplicity per peer, self records, no zero entries, no entry naming a dead or unknown allocation) after every operation and when user code first runs during a teardown; histories include unmatched/excess unadopts, parallel adoptions, elided unadopts and address reuse."),
+ "C09": dict(level="exploration", ref="6 C09",
+   technique="runtime monitor: replay of recorded call sequences under K perturbed heap layouts, per-step digest comparison; table orders observed via H1",
+   text="Each fully recorded history is executed once and its call sequence replayed under K layouts (scatter allocator seeds, plain, quarantine; ASan; Miri); per-operation destroyed sets and all counts must agree. The run reports how many histories actually saw >= 2 distinct table iteration orders and is inconclusive if too few did."),
+ "C10": dict(level="exploration", ref="6 C10",
+   technique="runtime monitor: scripted re-entrant payload destructors with all C01-C06 oracles armed during nested calls",
+   text="Destructors of every member of small shapes run action scripts (create/clone/drop incl. last handle of another group, adopt, unadopt, downgrade, upgrade of live objects and dying peers) before or after releasing their own handles, on every teardown path; every rule stays armed inside nested calls and any panic is a violation."),
+ "C11": dict(level="fault_enumeration", ref="6 C11",
+   technique="fault injection: one scripted destructor panic per history at every member position / teardown path, exactly-once + liveness + Weak oracles, allocator and sanitizers",
+   text="One panic is injected in the destructor of a chosen object (every index of enumerated and structured shapes, before/after it released its handles); the panic must propagate, no destructor may start twice, nothing reachable may die, Weak handles must report dead, no double free; random operations on the survivors follow."),
+ "C12": dict(level="exploration", ref="6 C12",
+   technique="runtime monitor + sanitizers: consuming calls on linked objects, H1 snapshots must not name given-up allocations, exactly-once value oracle, ASan/Miri on later drops",
+   text="try_unwrap, make_mut (3 branches), get_mut, raw round trips and increment/decrement_strong_count are called on objects that adopted or were adopted, with/without Weak handles, followed by further drops of the former peers; tables, values (moved/cloned exactly once) and all later operations are checked."),
+ "C13": dict(level="exploration", ref="6 C13",
+   technique="runtime monitor: C01/C02 oracles on histories that elide unadopt; known finding matched by cause signature",
+   text="Histories that are well-formed except for taken-but-not-unadopted handles are run with the premature-destruction and memory rules armed. The pinned algorithm trusts stale records by design (known finding, matched by an exact cause signature evaluated on the ledger); any other violation is reported."),
+ "C14": dict(level="exploration", ref="6 C14",
+   technique="runtime monitor: trace-invocation counter (H3) and library-origin allocation counter sampled around clone/drop of unlinked objects",
+   text="Around every clone/drop of a handle to an object with no recorded adoption in either direction (never adopted, fully unadopted again, merely stored inside adopted objects) the number of traces and of library heap allocations must not advance (window closes at the first user destructor)."),
+ "C15": dict(level="exploration", ref="6 C15",
+   technique="runtime monitor: bounded scaling experiment in child processes on 64/128 KiB stacks with trace visit counters (H3) and destructor nesting depth",
+   text="Groups of N up to 3*10^5 objects (ring, ring+chords, clique, self-adopters mixed in) built by moving handles are collected on a small-stack thread in a child process; the child must complete, counters must satisfy the linear bounds computed from the graph, nesting depth must stay 1. 'Any size' is restated as this bounded experiment."),
+ "C16": dict(level="exploration", ref="6 C16",
+   technique="runtime monitor: exit status and output markers of one child process per dead-handle scenario (clone must abort, drop must be inert)",
+   text="Per scenario one child process: a member destructor clones (resp. drops) a stored handle whose target is already destroyed during the collection; after BEFORE-CLONE the child must die by SIGILL/SIGABRT without AFTER-CLONE (Miri: program aborted); the drop-only variant must complete with all monitors silent."),
 }
+for _c in CHECKS.values():
+    _c.setdefault("note", COMMON_NOTE)
 
 NOT_YET = {}
 
